@@ -93,6 +93,11 @@ func (e *EndpointExporter) exportChildStmts(returnStatusMap map[int]spec.Respons
 
 func (e *EndpointExporter) populateEndpoint(path string, endpoint *proto.Endpoint, paths map[string]spec.PathItem,
 ) error {
+	// only REST endpoints ("<METHOD> <path>") have an OpenAPI representation
+	if len(strings.Split(path, " ")) < 2 {
+		e.log.Warnf("Skipping endpoint %q: not a REST endpoint", path)
+		return nil
+	}
 	// extract the endpoint info and populate spec.PathItem
 	var pathItem spec.PathItem
 	var pathExists bool
